@@ -2,6 +2,1116 @@
 import N2k.Model.Spec
 import N2k.Model.Interp
 import N2k.Lemmas.F64
-namespace N2k
+import N2k.Lemmas.Dec01
+import Mathlib.Tactic.Linarith
+import Mathlib.Tactic.NormNum
+import Mathlib.Tactic.Ring
+namespace N2k.Enc02
+open N2k N2k.Spec
 
-end N2k
+/-! ### bits of a field, contributions -/
+
+/-- same as `contrib` of Props/C02.lean (which is defined after this file) -/
+def ctr (n : Int) (len : Nat) : Nat := (n % ((2 ^ len : Nat) : Int)).toNat
+
+/-- same as `fieldInt` of Props/C02.lean -/
+def fInt (data off len : Nat) (signed : Bool) : Int :=
+  if signed then signExtend (Straight.decode_int data off len) len else ((Straight.decode_int data off len : Nat) : Int)
+
+theorem decode_int_lt (data off len : Nat) : Straight.decode_int data off len < 2 ^ len := by
+  rw [Dec01.decode_int_bits]; exact Nat.mod_lt _ (Nat.two_pow_pos _)
+
+theorem ctr_nat (v len : Nat) (h : v < 2 ^ len) : ctr (v : Int) len = v := by
+  unfold ctr
+  rw [← Int.natCast_mod, Int.toNat_natCast, Nat.mod_eq_of_lt h]
+
+theorem ctr_lt (n : Int) (len : Nat) : ctr n len < 2 ^ len := by
+  unfold ctr
+  have hp : (0 : Int) < ((2 ^ len : Nat) : Int) := by exact_mod_cast Nat.two_pow_pos len
+  have h1 := Int.emod_nonneg n hp.ne'
+  have h2 := Int.emod_lt_of_pos n hp
+  omega
+
+theorem ctr_add_pow (n : Int) (len : Nat) : ctr (((2 ^ len : Nat) : Int) + n) len = ctr n len := by
+  unfold ctr; rw [Int.add_emod_left]
+
+theorem ctr_sub_pow (n : Int) (len : Nat) : ctr (n - ((2 ^ len : Nat) : Int)) len = ctr n len := by
+  unfold ctr; rw [Int.sub_emod_right]
+
+theorem ctr_of_nonneg (n : Int) (len : Nat) (h0 : 0 ≤ n) (h1 : n < ((2 ^ len : Nat) : Int)) :
+    ((ctr n len : Nat) : Int) = n := by
+  unfold ctr
+  rw [Int.emod_eq_of_lt h0 h1]; omega
+
+theorem two_pow_pred (len : Nat) (h : 1 ≤ len) : 2 ^ len = 2 * 2 ^ (len - 1) := by
+  obtain ⟨k, rfl⟩ : ∃ k, len = k + 1 := ⟨len - 1, by omega⟩
+  rw [Nat.add_sub_cancel, Nat.pow_succ]; omega
+
+/-- sign extension, arithmetically -/
+theorem signExtend_eq (n len : Nat) (hl : 1 ≤ len) (hn : n < 2 ^ len) :
+    signExtend n len = if n < 2 ^ (len - 1) then (n : Int) else (n : Int) - ((2 ^ len : Nat) : Int) := by
+  unfold signExtend
+  have hP := two_pow_pred len hl
+  have hH : 0 < 2 ^ (len - 1) := Nat.two_pow_pos _
+  have hq : n / 2 ^ (len - 1) < 2 := (Nat.div_lt_iff_lt_mul hH).mpr (by omega)
+  by_cases hlt : n < 2 ^ (len - 1)
+  · have : n / 2 ^ (len - 1) = 0 := Nat.div_eq_zero_iff.mpr (Or.inr hlt)
+    rw [this, if_pos hlt]; simp
+  · have h0 : n / 2 ^ (len - 1) ≠ 0 := by
+      intro h; rcases Nat.div_eq_zero_iff.mp h with h | h <;> omega
+    have : n / 2 ^ (len - 1) = 1 := by
+      generalize n / 2 ^ (len - 1) = q at hq h0; omega
+    rw [this, if_neg hlt]; simp
+
+theorem signExtend_zero_len (n : Nat) (hn : n < 2 ^ 0) : signExtend n 0 = 0 := by
+  have : n = 0 := by simpa using hn
+  subst this; simp [signExtend]
+
+theorem ctr_fInt (data off len : Nat) (signed : Bool) :
+    ctr (fInt data off len signed) len = Straight.decode_int data off len := by
+  have hlt := decode_int_lt data off len
+  unfold fInt
+  cases signed
+  · simp only [Bool.false_eq_true, if_false]; exact ctr_nat _ _ hlt
+  · simp only [if_true]
+    rcases Nat.eq_zero_or_pos len with h0 | hpos
+    · subst h0
+      rw [signExtend_zero_len _ hlt]
+      have : Straight.decode_int data off 0 = 0 := by simpa using hlt
+      rw [this]; rfl
+    · rw [signExtend_eq _ _ hpos hlt]
+      split
+      · exact ctr_nat _ _ hlt
+      · rw [ctr_sub_pow]; exact ctr_nat _ _ hlt
+
+/-- the field integer lies strictly between `-2^len` and `2^len`; precisely for each signedness -/
+theorem fInt_bounds (data off len : Nat) (signed : Bool) :
+    (signed = false → 0 ≤ fInt data off len signed ∧ fInt data off len signed < ((2 ^ len : Nat) : Int)) ∧
+    (signed = true → 1 ≤ len → -((2 ^ (len - 1) : Nat) : Int) ≤ fInt data off len signed ∧
+        fInt data off len signed < ((2 ^ (len - 1) : Nat) : Int)) ∧
+    (signed = true → len = 0 → fInt data off len signed = 0) := by
+  have hlt := decode_int_lt data off len
+  refine ⟨?_, ?_, ?_⟩
+  · intro hs; subst hs
+    simp only [fInt, Bool.false_eq_true, if_false]
+    exact ⟨Int.natCast_nonneg _, by exact_mod_cast hlt⟩
+  · intro hs hl; subst hs
+    simp only [fInt, if_true]
+    rw [signExtend_eq _ _ hl hlt]
+    have hP := two_pow_pred len hl
+    split <;> omega
+  · intro hs hl; subst hs; subst hl
+    simp only [fInt, if_true]
+    exact signExtend_zero_len _ hlt
+
+theorem fInt_abs (data off len : Nat) (signed : Bool) (hl : len ≤ 48) :
+    |((fInt data off len signed : Int) : ℚ)| ≤ 2 ^ 48 := by
+  have hb := fInt_bounds data off len signed
+  have hmono : 2 ^ len ≤ 2 ^ 48 := Nat.pow_le_pow_right (by norm_num) hl
+  have hz : |fInt data off len signed| ≤ 2 ^ 48 := by
+    rw [abs_le]
+    cases signed
+    · have := hb.1 rfl; constructor <;> omega
+    · rcases Nat.eq_zero_or_pos len with h0 | hpos
+      · rw [hb.2.2 rfl h0]; constructor <;> norm_num
+      · have := hb.2.1 rfl hpos
+        have hP := two_pow_pred len hpos
+        constructor <;> omega
+  exact_mod_cast hz
+
+/-! ### the not-available code -/
+
+def naVal (len : Nat) (signed : Bool) : Int :=
+  if len ≤ 3 then ((2 ^ len : Nat) - 1 : Int)
+  else if signed then ((2 ^ (len - 1) : Nat) - 1 : Int) else ((2 ^ len : Nat) - 1 : Int)
+
+theorem encodeNumber_none (len : Nat) (signed : Bool) (res ofs : Lit) (hl : len ≠ 1) :
+    encodeNumber .none len signed res ofs = .ok (naVal len signed) := by
+  unfold encodeNumber naVal
+  simp only [if_neg hl]
+
+theorem naCode_eq (len : Nat) (signed : Bool) (hl : 2 ≤ len) : naCode len signed = some (naVal len signed) := by
+  unfold naCode naVal
+  rw [if_neg (by omega)]
+  split
+  · rfl
+  · split <;> rfl
+
+theorem naTime_eq (len : Nat) (signed : Bool) (hl : 4 ≤ len) : naTime len signed = naVal len signed := by
+  unfold naTime naVal
+  rw [if_neg (show ¬ len ≤ 3 by omega)]
+
+theorem decodeNumber_none_iff (data off len : Nat) (signed : Bool) (res mn mx ofs : Lit) :
+    decodeNumber data off len signed res mn mx ofs = .ok none ↔
+      naCode len signed = some (fInt data off len signed) :=
+  Dec01.decodeNumber_na data off len signed res mn mx ofs
+
+theorem na_rt (data off len : Nat) (signed : Bool) (res mn mx ofs : Lit) (hl : 2 ≤ len)
+    (hdec : decodeNumber data off len signed res mn mx ofs = .ok none) :
+    ctr (naVal len signed) len = Straight.decode_int data off len := by
+  have h := (decodeNumber_none_iff ..).mp hdec
+  rw [naCode_eq len signed hl] at h
+  rw [Option.some.inj h]
+  exact ctr_fInt ..
+
+/-- the NA value is a nonnegative `len`-bit number -/
+theorem naVal_range (len : Nat) (signed : Bool) (hl : 1 ≤ len) :
+    0 ≤ naVal len signed ∧ naVal len signed < ((2 ^ len : Nat) : Int) := by
+  unfold naVal
+  have hP := two_pow_pred len hl
+  have hH : 0 < 2 ^ (len - 1) := Nat.two_pow_pos _
+  split
+  · constructor <;> omega
+  · split <;> constructor <;> omega
+
+theorem absent_dec (data off len : Nat) (signed : Bool) (res mn mx ofs : Lit) (n : Int)
+    (hl : 2 ≤ len) (hs : signed = true → 4 ≤ len)
+    (h : encodeNumber .none len signed res ofs = .ok n)
+    (hbits : Straight.decode_int data off len = ctr n len) :
+    decodeNumber data off len signed res mn mx ofs = .ok none := by
+  rw [encodeNumber_none len signed res ofs (by omega)] at h
+  have hn : n = naVal len signed := (Except.ok.inj h).symm
+  rw [decodeNumber_none_iff, naCode_eq len signed hl]
+  congr 1
+  have hr := naVal_range len signed (by omega)
+  have hc := ctr_of_nonneg _ len hr.1 hr.2
+  rw [← hn] at hc
+  unfold fInt
+  rw [hbits]
+  cases signed
+  · simp only [Bool.false_eq_true, if_false]; rw [hc, hn]
+  · simp only [if_true]
+    have h4 := hs rfl
+    rw [signExtend_eq _ _ (by omega) (ctr_lt _ _)]
+    have hlt : ctr n len < 2 ^ (len - 1) := by
+      have : ((ctr n len : Nat) : Int) < ((2 ^ (len - 1) : Nat) : Int) := by
+        rw [hc, hn]; unfold naVal; rw [if_neg (by omega)]; simp
+      exact_mod_cast this
+    rw [if_pos hlt, hc, hn]
+
+/-! ### encodeNumber on finite numbers -/
+
+def nLo (len : Nat) (signed : Bool) : Int := if signed then -((2 ^ (len - 1) : Nat) : Int) else 0
+def nHi (len : Nat) (signed : Bool) : Int :=
+  if signed then ((2 ^ (len - 1) : Nat) : Int) - 2 else if len = 1 then 1 else ((2 ^ len : Nat) : Int) - 2
+
+theorem encodeNumber_num (x : Num) (len : Nat) (signed : Bool) (res ofs : Lit) (hres : res.val ≠ 0) :
+    encodeNumber (numVal x) len signed res ofs =
+      if rhe (pyDiv (subLit x ofs) (litNum res)) < nLo len signed ∨
+          rhe (pyDiv (subLit x ofs) (litNum res)) > nHi len signed then .error .range
+      else .ok (if signed = true ∧ rhe (pyDiv (subLit x ofs) (litNum res)) < 0
+                then ((2 ^ len : Nat) : Int) + rhe (pyDiv (subLit x ofs) (litNum res))
+                else rhe (pyDiv (subLit x ofs) (litNum res))) := by
+  cases x <;> simp only [numVal, encodeNumber, if_neg hres, nLo, nHi] <;> rfl
+
+theorem encodeNumber_range_rejected (x : Num) (len : Nat) (signed : Bool) (res ofs : Lit) (hres : res.val ≠ 0)
+    (h : rhe (pyDiv (subLit x ofs) (litNum res)) < nLo len signed ∨
+      nHi len signed < rhe (pyDiv (subLit x ofs) (litNum res))) :
+    encodeNumber (numVal x) len signed res ofs = .error .range := by
+  rw [encodeNumber_num x len signed res ofs hres, if_pos h]
+
+theorem encodeNumber_nearest (x : Num) (len : Nat) (signed : Bool) (res ofs : Lit) (n : Int)
+    (hl : 1 ≤ len) (hres : res.val ≠ 0)
+    (h : encodeNumber (numVal x) len signed res ofs = .ok n) :
+    ∃ z : Int, |((z : Int) : Rat) - pyDiv (subLit x ofs) (litNum res)| ≤ 1 / 2 ∧ nLo len signed ≤ z ∧ z ≤ nHi len signed ∧
+      ctr n len = ctr z len ∧ 0 ≤ n ∧ n < ((2 ^ len : Nat) : Int) := by
+  rw [encodeNumber_num x len signed res ofs hres] at h
+  generalize hz : rhe (pyDiv (subLit x ofs) (litNum res)) = z at h
+  split at h
+  · cases h
+  · rename_i hr
+    have hn := Except.ok.inj h
+    refine ⟨z, ?_, by omega, by omega, ?_, ?_⟩
+    · rw [← hz]; exact rhe_err _
+    · rw [← hn]; split
+      · exact ctr_add_pow _ _
+      · rfl
+    · have hP := two_pow_pred len hl
+      have hH : 0 < 2 ^ (len - 1) := Nat.two_pow_pos _
+      have hlo : nLo len signed ≤ z := by omega
+      have hhi : z ≤ nHi len signed := by omega
+      unfold nLo at hlo
+      unfold nHi at hhi
+      rw [← hn]
+      cases signed
+      · simp only [Bool.false_eq_true, if_false, false_and] at hlo hhi ⊢
+        split at hhi <;> constructor <;> omega
+      · simp only [if_true, true_and] at hlo hhi ⊢
+        split <;> constructor <;> omega
+
+/-- a field integer that is not the NA code lies in the encoder's accepted range -/
+theorem fInt_in_range (data off len : Nat) (signed : Bool) (hl1 : 1 ≤ len) (hs : signed = true → 4 ≤ len)
+    (hna : naCode len signed ≠ some (fInt data off len signed)) :
+    nLo len signed ≤ fInt data off len signed ∧ fInt data off len signed ≤ nHi len signed := by
+  have hb := fInt_bounds data off len signed
+  have hP := two_pow_pred len hl1
+  have hH : 0 < 2 ^ (len - 1) := Nat.two_pow_pos _
+  unfold nLo nHi
+  cases signed
+  · have h1 := hb.1 rfl
+    simp only [Bool.false_eq_true, if_false]
+    refine ⟨h1.1, ?_⟩
+    by_cases hl : len = 1
+    · subst hl; rw [if_pos rfl]; norm_num at h1 ⊢; omega
+    · rw [if_neg hl]
+      rw [naCode_eq len false (by omega)] at hna
+      have : naVal len false = ((2 ^ len : Nat) : Int) - 1 := by
+        unfold naVal; split <;> simp
+      rw [this] at hna
+      have hne : fInt data off len false ≠ ((2 ^ len : Nat) : Int) - 1 := fun e => hna (by rw [e])
+      omega
+  · have h4 := hs rfl
+    have h1 := hb.2.1 rfl hl1
+    simp only [if_true]
+    refine ⟨h1.1, ?_⟩
+    rw [naCode_eq len true (by omega)] at hna
+    have : naVal len true = ((2 ^ (len - 1) : Nat) : Int) - 1 := by
+      unfold naVal; rw [if_neg (by omega)]; simp
+    rw [this] at hna
+    have hne : fInt data off len true ≠ ((2 ^ (len - 1) : Nat) : Int) - 1 := fun e => hna (by rw [e])
+    omega
+
+/-- once the rounded quotient is the field integer (not NA), the encoder returns the field's bits -/
+theorem encodeNumber_of_rhe (x : Num) (data off len : Nat) (signed : Bool) (res ofs : Lit)
+    (hres : res.val ≠ 0) (hl1 : 1 ≤ len) (hs : signed = true → 4 ≤ len)
+    (hna : naCode len signed ≠ some (fInt data off len signed))
+    (hq : rhe (pyDiv (subLit x ofs) (litNum res)) = fInt data off len signed) :
+    ∃ n, encodeNumber (numVal x) len signed res ofs = .ok n ∧ ctr n len = Straight.decode_int data off len := by
+  rw [encodeNumber_num x len signed res ofs hres, hq]
+  have hr := fInt_in_range data off len signed hl1 hs hna
+  rw [if_neg (by omega)]
+  refine ⟨_, rfl, ?_⟩
+  split
+  · rw [ctr_add_pow]; exact ctr_fInt ..
+  · exact ctr_fInt ..
+
+/-! ### what a successful `decodeNumber` returned -/
+
+theorem ite3_some {ε α} (a b : Prop) [Decidable a] [Decidable b] (e1 e2 : ε) (v w : α)
+    (h : (if a then Except.error e1 else if b then Except.error e2 else Except.ok (some v)) = Except.ok (some w)) :
+    v = w := by
+  by_cases ha : a <;> by_cases hb : b <;> simp [ha, hb] at h
+  exact h
+
+theorem decodeNumber_some {data off len : Nat} {signed : Bool} {res mn mx ofs : Lit} {v : Num}
+    (h : decodeNumber data off len signed res mn mx ofs = .ok (some v)) :
+    naCode len signed ≠ some (fInt data off len signed) ∧
+      v = addLit (mulLit (fInt data off len signed) res) ofs := by
+  simp only [decodeNumber] at h
+  change (if naCode len signed = some (fInt data off len signed) then _ else _) = _ at h
+  split at h
+  · cases h
+  · rename_i hna
+    exact ⟨hna, (ite3_some _ _ _ _ _ _ h).symm⟩
+
+/-! ### integer resolution -/
+
+theorem Lit.val_int_ne_zero (r : Lit) (hf : r.isFloat = false) (hm : 0 < r.m) : r.val ≠ 0 := by
+  unfold Lit.val Lit.exact
+  rw [hf]; simp only [Bool.false_eq_true, if_false]
+  have : (0 : ℚ) < (r.m : ℚ) := by exact_mod_cast hm
+  exact (mul_pos this (pow10_pos _)).ne'
+
+/-- `round((z·r + o − o) / r) = z` for integer literals -/
+theorem quot_int (z : Int) (res ofs : Lit) (hf : res.isFloat = false) (hm : 0 < res.m)
+    (hof : ofs.isFloat = false) (hz : |(z : ℚ)| ≤ 2 ^ 48) :
+    rhe (pyDiv (subLit (addLit (mulLit z res) ofs) ofs) (litNum res)) = z := by
+  simp only [mulLit, addLit, subLit, litNum, hf, hof, Bool.false_eq_true, if_false, pyDiv]
+  have hr : (res.m : ℚ) ≠ 0 := by
+    have : (0 : ℚ) < (res.m : ℚ) := by exact_mod_cast hm
+    exact this.ne'
+  have e : ((z * res.m + ofs.m - ofs.m : Int) : ℚ) / (res.m : ℚ) = (z : ℚ) := by
+    push_cast; field_simp; ring
+  rw [e]
+  have h53 : |z| ≤ 2 ^ 53 := by
+    have : |(z : ℚ)| ≤ 2 ^ 53 := le_trans hz (by norm_num)
+    exact_mod_cast this
+  rw [rne_int_exact z h53, rhe_int]
+
+theorem number_rt_int (data off len : Nat) (signed : Bool) (res mn mx ofs : Lit) (v : Num)
+    (hf : res.isFloat = false) (hm : 0 < res.m) (hof : ofs.isFloat = false)
+    (hl1 : 1 ≤ len) (hl : len ≤ 48) (hs : signed = true → 4 ≤ len)
+    (hdec : decodeNumber data off len signed res mn mx ofs = .ok (some v)) :
+    ∃ n, encodeNumber (numVal v) len signed res ofs = .ok n ∧
+      ctr n len = Straight.decode_int data off len := by
+  obtain ⟨hna, rfl⟩ := decodeNumber_some hdec
+  exact encodeNumber_of_rhe _ data off len signed res ofs (Lit.val_int_ne_zero res hf hm) hl1 hs hna
+    (quot_int _ res ofs hf hm hof (fInt_abs data off len signed hl))
+
+theorem ofInt_zero_val : (Lit.ofInt 0).val = 0 := by
+  simp [Lit.ofInt, Lit.val, Lit.exact]
+
+theorem subLit_zero_int (z : Int) : subLit (.int z) (Lit.ofInt 0) = .int z := by
+  simp [subLit, Lit.ofInt]
+
+theorem ticks_rt_int (data off len : Nat) (signed : Bool) (res mn mx : Lit) (v : Num)
+    (hf : res.isFloat = false) (hm : 0 < res.m) (hl : len ≤ 48)
+    (hdec : decodeNumber data off len signed res mn mx (Lit.ofInt 0) = .ok (some v)) :
+    ctr (rhe (pyDiv v (litNum res))) len = Straight.decode_int data off len := by
+  obtain ⟨-, rfl⟩ := decodeNumber_some hdec
+  have h := quot_int (fInt data off len signed) res (Lit.ofInt 0) hf hm rfl (fInt_abs data off len signed hl)
+  have e : subLit (addLit (mulLit (fInt data off len signed) res) (Lit.ofInt 0)) (Lit.ofInt 0) =
+      addLit (mulLit (fInt data off len signed) res) (Lit.ofInt 0) := by
+    simp only [mulLit, hf, Bool.false_eq_true, if_false, addLit, Lit.ofInt]
+    exact subLit_zero_int _
+  rw [e] at h
+  rw [h]; exact ctr_fInt ..
+
+/-! ### decimal resolution -/
+
+theorem Lit.val_float_ne_zero (res : Lit) (hf : res.isFloat = true) (hres : pow2 (-1022) ≤ res.exact) :
+    res.val ≠ 0 :=
+  (lt_of_lt_of_le (pow2_pos _) (Lit.val_pos_of_normal res hf hres)).ne'
+
+theorem addLit_flt_zero (q : ℚ) : addLit (.flt (rne q)) (Lit.ofInt 0) = .flt (rne q) := by
+  simp only [addLit, ofInt_zero_val, rne_zero, add_zero, rne_idem]
+
+theorem subLit_flt_zero (q : ℚ) : subLit (.flt (rne q)) (Lit.ofInt 0) = .flt (rne q) := by
+  simp only [subLit, ofInt_zero_val, rne_zero, sub_zero, rne_idem]
+
+theorem decoded_float (z : Int) (res : Lit) (hf : res.isFloat = true) :
+    addLit (mulLit z res) (Lit.ofInt 0) = mulLit z res := by
+  rw [mulLit_float z res hf, addLit_flt_zero]
+
+theorem quot_float (z : Int) (res : Lit) (hf : res.isFloat = true) (hres : pow2 (-1022) ≤ res.exact)
+    (hz : |(z : ℚ)| ≤ 2 ^ 48) :
+    rhe (pyDiv (subLit (addLit (mulLit z res) (Lit.ofInt 0)) (Lit.ofInt 0)) (litNum res)) = z := by
+  rw [decoded_float z res hf, mulLit_float z res hf, subLit_flt_zero, ← mulLit_float z res hf,
+    litNum_float res hf]
+  exact scale_roundtrip_lit_of_normal z res hf hres hz
+
+theorem number_rt_float (data off len : Nat) (signed : Bool) (res mn mx : Lit) (v : Num)
+    (hf : res.isFloat = true) (hres : pow2 (-1022) ≤ res.exact)
+    (hl1 : 1 ≤ len) (hl : len ≤ 48) (hs : signed = true → 4 ≤ len)
+    (hdec : decodeNumber data off len signed res mn mx (Lit.ofInt 0) = .ok (some v)) :
+    ∃ n, encodeNumber (numVal v) len signed res (Lit.ofInt 0) = .ok n ∧
+      ctr n len = Straight.decode_int data off len := by
+  obtain ⟨hna, rfl⟩ := decodeNumber_some hdec
+  exact encodeNumber_of_rhe _ data off len signed res _ (Lit.val_float_ne_zero res hf hres) hl1 hs hna
+    (quot_float _ res hf hres (fInt_abs data off len signed hl))
+
+theorem ticks_rt_float (data off len : Nat) (signed : Bool) (res mn mx : Lit) (v : Num)
+    (hf : res.isFloat = true) (hres : pow2 (-1022) ≤ res.exact) (hl : len ≤ 48)
+    (hdec : decodeNumber data off len signed res mn mx (Lit.ofInt 0) = .ok (some v)) :
+    ctr (rhe (pyDiv v (litNum res))) len = Straight.decode_int data off len := by
+  obtain ⟨-, rfl⟩ := decodeNumber_some hdec
+  rw [decoded_float _ res hf, litNum_float res hf,
+    scale_roundtrip_lit_of_normal _ res hf hres (fInt_abs data off len signed hl)]
+  exact ctr_fInt ..
+
+/-! ### bit-level: OR-accumulation at disjoint ranges -/
+
+theorem testBit_decode_int (a o l i : Nat) :
+    (Straight.decode_int a o l).testBit i = (decide (i < l) && a.testBit (o + i)) := by
+  rw [Dec01.decode_int_bits, Nat.testBit_mod_two_pow, ← Nat.shiftRight_eq_div_pow, Nat.testBit_shiftRight]
+
+theorem decode_int_or (a b o l : Nat) :
+    Straight.decode_int (a ||| b) o l = Straight.decode_int a o l ||| Straight.decode_int b o l := by
+  apply Nat.eq_of_testBit_eq; intro i
+  simp only [testBit_decode_int, Nat.testBit_or, Bool.and_or_distrib_left]
+
+theorem decode_int_zero (o l : Nat) : Straight.decode_int 0 o l = 0 := by
+  rw [Dec01.decode_int_bits]; simp
+
+theorem decode_int_shift_self (v o l : Nat) (h : v < 2 ^ l) : Straight.decode_int (v <<< o) o l = v := by
+  rw [Dec01.decode_int_bits, ← Nat.shiftRight_eq_div_pow, Nat.shiftLeft_shiftRight, Nat.mod_eq_of_lt h]
+
+/-- a `l`-bit value placed at `o`, read at a disjoint range `(o', l')` -/
+theorem decode_int_shift_disj (v o l o' l' : Nat) (h : v < 2 ^ l) (hd : o + l ≤ o' ∨ o' + l' ≤ o) :
+    Straight.decode_int (v <<< o) o' l' = 0 := by
+  apply Nat.eq_of_testBit_eq; intro i
+  rw [testBit_decode_int, Nat.testBit_shiftLeft, Nat.zero_testBit]
+  by_cases hi : i < l'
+  · by_cases hge : o' + i ≥ o
+    · rcases hd with hd | hd
+      · have : v.testBit (o' + i - o) = false :=
+          Nat.testBit_lt_two_pow (lt_of_lt_of_le h (Nat.pow_le_pow_right (by norm_num) (by omega)))
+        simp [this]
+      · omega
+    · simp [hge]
+  · simp [hi]
+
+/-- same as `accumulate` of Props/C02.lean -/
+def acc : List (Nat × Nat × Nat) → Nat
+  | [] => 0
+  | (v, _, o) :: rest => acc rest ||| (v <<< o)
+
+/-- same as `disjointRanges` of Props/C02.lean -/
+def disj : List (Nat × Nat × Nat) → Prop
+  | [] => True
+  | (_, l, o) :: rest => (∀ x ∈ rest, o + l ≤ x.2.2 ∨ x.2.2 + x.2.1 ≤ o) ∧ disj rest
+
+theorem acc_unique (A : List (Nat × Nat × Nat) → Nat) (h0 : A [] = 0)
+    (h1 : ∀ v l o rest, A ((v, l, o) :: rest) = A rest ||| (v <<< o)) : ∀ parts, A parts = acc parts := by
+  intro parts
+  induction parts with
+  | nil => exact h0
+  | cons x rest ih => obtain ⟨v, l, o⟩ := x; rw [h1, ih]; rfl
+
+theorem disj_unique (D : List (Nat × Nat × Nat) → Prop)
+    (h1 : ∀ v l o rest, D ((v, l, o) :: rest) =
+      ((∀ x ∈ rest, o + l ≤ x.2.2 ∨ x.2.2 + x.2.1 ≤ o) ∧ D rest)) : ∀ parts, D parts → disj parts := by
+  intro parts
+  induction parts with
+  | nil => intro _; trivial
+  | cons x rest ih =>
+    obtain ⟨v, l, o⟩ := x
+    intro h; rw [h1] at h
+    exact ⟨h.1, ih h.2⟩
+
+theorem acc_read_disj (parts : List (Nat × Nat × Nat)) (hv : ∀ x ∈ parts, x.1 < 2 ^ x.2.1) (o l : Nat)
+    (hd : ∀ x ∈ parts, o + l ≤ x.2.2 ∨ x.2.2 + x.2.1 ≤ o) :
+    Straight.decode_int (acc parts) o l = 0 := by
+  induction parts with
+  | nil => exact decode_int_zero o l
+  | cons y rest ih =>
+    obtain ⟨v, l', o'⟩ := y
+    rw [acc, decode_int_or, ih (fun x hx => hv x (List.mem_cons_of_mem _ hx))
+      (fun x hx => hd x (List.mem_cons_of_mem _ hx)),
+      decode_int_shift_disj v o' l' o l (hv _ (List.mem_cons_self ..)) (hd _ (List.mem_cons_self ..)).symm]
+    rfl
+
+theorem acc_read (parts : List (Nat × Nat × Nat)) (hd : disj parts)
+    (hv : ∀ x ∈ parts, x.1 < 2 ^ x.2.1) (x : Nat × Nat × Nat) (hx : x ∈ parts) :
+    Straight.decode_int (acc parts) x.2.2 x.2.1 = x.1 := by
+  induction parts with
+  | nil => cases hx
+  | cons y rest ih =>
+    obtain ⟨v, l, o⟩ := y
+    obtain ⟨hd1, hd2⟩ := hd
+    have hv' : ∀ x ∈ rest, x.1 < 2 ^ x.2.1 := fun x hx => hv x (List.mem_cons_of_mem _ hx)
+    rw [acc, decode_int_or]
+    rcases List.mem_cons.mp hx with rfl | hx'
+    · rw [acc_read_disj rest hv' _ _ hd1, decode_int_shift_self _ _ _ (hv _ (List.mem_cons_self ..))]
+      simp
+    · rw [ih hd2 hv' hx', decode_int_shift_disj v o l _ _ (hv _ (List.mem_cons_self ..)) (hd1 x hx')]
+      simp
+
+/-! ### encoder steps -/
+
+theorem runSteps_field_ok {env : Env} {fs : List Field} {a : Nat} {id nm : String} {k : EncKind} {mask off : Nat}
+    {rest : List EncStep} {r : Nat}
+    (h : runSteps env fs a (.field id nm k mask off :: rest) = .ok r) :
+    ∃ f v, getField fs id = some f ∧ encValue env f k = .ok v ∧
+      runSteps env fs (a ||| (((v % ((2 ^ bitLength mask : Nat) : Int)).toNat &&& mask) <<< off)) rest = .ok r := by
+  rw [runSteps] at h
+  cases hg : getField fs id with
+  | none => rw [hg] at h; cases h
+  | some f =>
+    rw [hg] at h
+    simp only [bind, Except.bind] at h
+    cases hv : encValue env f k with
+    | error e => rw [hv] at h; cases h
+    | ok v => rw [hv] at h; exact ⟨f, v, rfl, hv, h⟩
+
+theorem runSteps_missing (env : Env) (fs : List Field) (id name : String) (k : EncKind) (mask off : Nat)
+    (hmiss : getField fs id = none) :
+    ∀ (steps : List EncStep) (a : Nat), EncStep.field id name k mask off ∈ steps →
+      ∀ r, runSteps env fs a steps ≠ .ok r := by
+  intro steps
+  induction steps with
+  | nil => intro a h; cases h
+  | cons s rest ih =>
+    intro a hmem r hr
+    cases s with
+    | noLayout pg nm => rw [runSteps] at hr; cases hr
+    | unrecognised w => rw [runSteps] at hr; cases hr
+    | field i n kk mk o =>
+      obtain ⟨f, v, hg, -, hrest⟩ := runSteps_field_ok hr
+      rcases List.mem_cons.mp hmem with heq | hmem'
+      · injection heq with e1
+        subst e1
+        rw [hmiss] at hg; cases hg
+      · exact ih _ hmem' r hrest
+
+theorem runEnc_missing (env : Env) (fn : EncFn) (fs : List Field) (id name : String) (k : EncKind) (mask off : Nat)
+    (hstep : EncStep.field id name k mask off ∈ fn.steps) (hmiss : getField fs id = none) :
+    ∀ bytes, runEnc env fn fs ≠ .ok bytes := by
+  intro bytes h
+  unfold runEnc at h
+  simp only [bind, Except.bind] at h
+  cases hr : runSteps env fs 0 fn.steps with
+  | error e => rw [hr] at h; cases h
+  | ok n => exact runSteps_missing env fs id name k mask off hmiss fn.steps 0 hstep n hr
+
+theorem masked_lt (x l : Nat) : x &&& (2 ^ l - 1) < 2 ^ l :=
+  lt_of_le_of_lt Nat.and_le_right (Nat.sub_lt (Nat.two_pow_pos l) Nat.one_pos)
+
+theorem runSteps_local (env : Env) (fs fs' : List Field) (id : String)
+    (hsame : ∀ j, j ≠ id → getField fs j = getField fs' j) (off' len' : Nat) :
+    ∀ (steps : List EncStep) (a0 b0 a b : Nat),
+      (∀ s ∈ steps, ∀ i n kk mk o, s = EncStep.field i n kk mk o → ∃ l, mk = 2 ^ l - 1) →
+      (∀ s ∈ steps, ∀ i n kk l o, s = EncStep.field i n kk (2 ^ l - 1) o →
+        i ≠ id ∨ o + l ≤ off' ∨ off' + len' ≤ o) →
+      Straight.decode_int a0 off' len' = Straight.decode_int b0 off' len' →
+      runSteps env fs a0 steps = .ok a → runSteps env fs' b0 steps = .ok b →
+      Straight.decode_int a off' len' = Straight.decode_int b off' len' := by
+  intro steps
+  induction steps with
+  | nil =>
+    intro a0 b0 a b _ _ h0 ha hb
+    rw [runSteps] at ha hb
+    cases ha; cases hb; exact h0
+  | cons s rest ih =>
+    intro a0 b0 a b hm hdj h0 ha hb
+    cases s with
+    | noLayout pg nm => rw [runSteps] at ha; cases ha
+    | unrecognised w => rw [runSteps] at ha; cases ha
+    | field i n kk mk o =>
+      obtain ⟨l, rfl⟩ := hm _ (List.mem_cons_self ..) i n kk mk o rfl
+      obtain ⟨f, v, hg, hv, hra⟩ := runSteps_field_ok ha
+      obtain ⟨f', v', hg', hv', hrb⟩ := runSteps_field_ok hb
+      refine ih _ _ a b (fun s hs => hm s (List.mem_cons_of_mem _ hs))
+        (fun s hs => hdj s (List.mem_cons_of_mem _ hs)) ?_ hra hrb
+      rw [decode_int_or, decode_int_or, h0]
+      rcases hdj _ (List.mem_cons_self ..) i n kk l o rfl with hne | hd
+      · have e := hsame i hne
+        rw [hg, hg'] at e
+        cases e
+        rw [hv] at hv'
+        cases hv'
+        rfl
+      · rw [decode_int_shift_disj _ o l off' len' (masked_lt _ l) hd,
+          decode_int_shift_disj _ o l off' len' (masked_lt _ l) hd]
+
+/-! ### per-field: what the decoder reports is re-encoded to the field's bits -/
+
+def isIntLit' (l : Option Lit) : Bool := match l with | some x => !x.isFloat | none => false
+
+/-- same as `encFieldOk` of Props/C02.lean -/
+def fieldOk (f : FieldDef) : Bool :=
+  match f.bitLength, f.bitOffset, f.resolution with
+  | some l, some _, some r =>
+    let t := f.ftype
+    if t = "NUMBER" ∨ t = "PGN" then
+      1 ≤ l && l ≤ 48 && (!f.signed || 4 ≤ l) && f.rangeMin.isSome && f.rangeMax.isSome &&
+      (if r.isFloat then f.offset.isNone && decide (pow2 (-1022) ≤ r.exact)
+       else decide (0 < r.m) && decide (r.e = 0) && isIntLit' f.rangeMin && isIntLit' f.rangeMax &&
+            (f.offset.isNone || isIntLit' f.offset))
+    else if t = "TIME" ∨ t = "DURATION" then
+      4 ≤ l && l ≤ 48 && f.rangeMin.isSome && f.rangeMax.isSome && f.offset.isNone &&
+      (if r.isFloat then decide (pow2 (-1022) ≤ r.exact)
+       else decide (0 < r.m) && decide (r.e = 0) && isIntLit' f.rangeMin && isIntLit' f.rangeMax)
+    else if t = "DATE" then
+      2 ≤ l && l ≤ 48 && !f.signed && !r.isFloat && decide (r.m = 1) && decide (r.e = 0) &&
+      isIntLit' f.rangeMin && isIntLit' f.rangeMax && f.offset.isNone
+    else if t = "LOOKUP" then f.enum.isSome
+    else t = "RESERVED"
+  | _, _, _ => false
+
+theorem runOp_number {env : Env} {data off : Nat} {done : List Field} {len : Nat} {signed : Bool}
+    {res mn mx ofs : Lit} {post : Post} {v raw : PyVal} {off' : Nat}
+    (h : runOp env data off done (.number len signed res mn mx ofs post) = .ok (v, raw, off')) :
+    ∃ r', decodeNumber data off len signed res mn mx ofs = .ok r' ∧
+      raw = (match r' with | some x => numVal x | none => .none) ∧
+      (post = .id → v = raw) ∧ (post = .time → v = decodeTime r') ∧ (post = .date → decodeDate r' = .ok v) := by
+  simp only [runOp, bind, Except.bind, pure, Except.pure] at h
+  cases hd : decodeNumber data off len signed res mn mx ofs with
+  | error e => rw [hd] at h; cases h
+  | ok r' =>
+    rw [hd] at h
+    refine ⟨r', rfl, ?_⟩
+    cases post with
+    | id =>
+      simp only [Except.ok.injEq, Prod.mk.injEq] at h
+      exact ⟨h.2.1.symm, fun _ => h.1.symm.trans h.2.1, fun h' => (by cases h'), fun h' => (by cases h')⟩
+    | time =>
+      simp only [Except.ok.injEq, Prod.mk.injEq] at h
+      exact ⟨h.2.1.symm, fun h' => (by cases h'), fun _ => h.1.symm, fun h' => (by cases h')⟩
+    | date =>
+      simp only at h
+      cases hdd : decodeDate r' with
+      | error e => rw [hdd] at h; cases h
+      | ok d =>
+        rw [hdd] at h
+        simp only [Except.ok.injEq, Prod.mk.injEq] at h
+        exact ⟨h.2.1.symm, fun h' => (by cases h'), fun h' => (by cases h'), fun _ => (by rw [h.1])⟩
+
+theorem encValue_number_none (env : Env) (fm : FieldMeta) (raw : PyVal) (bits : Nat) (s : Bool) (r o : Lit) :
+    encValue env ⟨fm, .none, raw⟩ (.number bits s r o) = encodeNumber .none bits s r o := rfl
+
+theorem encValue_number_num (env : Env) (fm : FieldMeta) (raw : PyVal) (x : Num) (bits : Nat) (s : Bool) (r o : Lit) :
+    encValue env ⟨fm, numVal x, raw⟩ (.number bits s r o) = encodeNumber (numVal x) bits s r o := by
+  cases x <;> rfl
+
+theorem encValue_time_none (env : Env) (fm : FieldMeta) (bits : Nat) (s : Bool) (r : Lit) :
+    encValue env ⟨fm, .none, .none⟩ (.time r bits s) = .ok (naTime bits s) := rfl
+
+theorem encValue_time_num (env : Env) (fm : FieldMeta) (val : PyVal) (x : Num) (bits : Nat) (s : Bool) (r : Lit)
+    (hres : r.val ≠ 0) :
+    encValue env ⟨fm, val, numVal x⟩ (.time r bits s) = .ok (rhe (pyDiv x (litNum r))) := by
+  cases x <;> simp only [encValue, numVal, if_neg hres] <;> rfl
+
+theorem isIntLit'_some {l : Option Lit} (h : isIntLit' l = true) : ∃ x, l = some x ∧ x.isFloat = false := by
+  cases l with
+  | none => cases h
+  | some x => exact ⟨x, rfl, by simpa [isIntLit'] using h⟩
+
+theorem naVal_unsigned (l : Nat) : naVal l false = ((2 ^ l : Nat) : Int) - 1 := by
+  unfold naVal; split <;> simp
+
+theorem none_len {data off len : Nat} {signed : Bool} {res mn mx ofs : Lit}
+    (h : decodeNumber data off len signed res mn mx ofs = .ok none) (hl : 1 ≤ len) : 2 ≤ len := by
+  have h' := (decodeNumber_none_iff ..).mp h
+  by_contra hc
+  have : len = 1 := by omega
+  subst this
+  simp [naCode] at h'
+
+theorem field_contrib (env : Env) (data : Nat) (f : FieldDef) (l o : Nat) (hok : fieldOk f = true)
+    (hl : f.bitLength = some l) (ho : f.bitOffset = some o)
+    (fm : FieldMeta) (v raw : PyVal) (off' : Nat) (done : List Field)
+    (hrun : runOp env data o done (decOp f) = .ok (v, raw, off')) :
+    ∃ z, encValue env ⟨fm, v, raw⟩ (encKind f l) = .ok z ∧ ctr z l = Straight.decode_int data o l := by
+  unfold fieldOk at hok
+  rw [hl, ho] at hok
+  cases hr : f.resolution with
+  | none => rw [hr] at hok; cases hok
+  | some r =>
+    rw [hr] at hok
+    simp only at hok
+    by_cases ht1 : f.ftype = "NUMBER" ∨ f.ftype = "PGN"
+    · -- NUMBER / PGN
+      rw [if_pos ht1] at hok
+      simp only [Bool.and_eq_true, decide_eq_true_eq, Bool.or_eq_true, Bool.not_eq_true'] at hok
+      obtain ⟨⟨⟨⟨⟨hl1, hl48⟩, hsg⟩, hmn⟩, hmx⟩, hres⟩ := hok
+      obtain ⟨mn, hmn⟩ := Option.isSome_iff_exists.mp hmn
+      obtain ⟨mx, hmx⟩ := Option.isSome_iff_exists.mp hmx
+      have hs : f.signed = true → 4 ≤ l := by
+        intro h; rcases hsg with h' | h'
+        · rw [h] at h'; cases h'
+        · exact h'
+      have hop : decOp f = .number l f.signed r mn mx (f.offset.getD (Lit.ofInt 0)) .id := by
+        rcases ht1 with h | h <;> simp [decOp, h, numberOp, hl, hr, hmn, hmx]
+      have hk : encKind f l = .number l f.signed r (f.offset.getD (Lit.ofInt 0)) := by
+        rcases ht1 with h | h <;> simp [encKind, h, hr]
+      rw [hop] at hrun
+      rw [hk]
+      obtain ⟨r', hdec, hraw, hv, -, -⟩ := runOp_number hrun
+      have hv' := hv rfl
+      subst hv'
+      cases r' with
+      | none =>
+        subst hraw
+        have h2 : 2 ≤ l := none_len hdec hl1
+        rw [encValue_number_none, encodeNumber_none _ _ _ _ (by omega)]
+        exact ⟨_, rfl, na_rt data o l f.signed r mn mx _ h2 hdec⟩
+      | some x =>
+        subst hraw
+        simp only
+        rw [encValue_number_num]
+        by_cases hf : r.isFloat = true
+        · rw [if_pos hf] at hres
+          simp only [Bool.and_eq_true, decide_eq_true_eq, Option.isNone_iff_eq_none] at hres
+          rw [hres.1] at hdec ⊢
+          exact number_rt_float data o l f.signed r mn mx x hf hres.2 hl1 hl48 hs hdec
+        · rw [if_neg hf] at hres
+          simp only [Bool.and_eq_true, decide_eq_true_eq, Bool.or_eq_true, Option.isNone_iff_eq_none] at hres
+          have hf' : r.isFloat = false := by simpa using hf
+          have hof : (f.offset.getD (Lit.ofInt 0)).isFloat = false := by
+            rcases hres.2 with h | h
+            · rw [h]; rfl
+            · obtain ⟨x, hx, hxf⟩ := isIntLit'_some h
+              rw [hx]; exact hxf
+          exact number_rt_int data o l f.signed r mn mx _ x hf' hres.1.1.1.1 hof hl1 hl48 hs hdec
+    · rw [if_neg ht1] at hok
+      have hn1 : f.ftype ≠ "NUMBER" := fun h => ht1 (Or.inl h)
+      have hn2 : f.ftype ≠ "PGN" := fun h => ht1 (Or.inr h)
+      by_cases ht2 : f.ftype = "TIME" ∨ f.ftype = "DURATION"
+      · -- TIME / DURATION
+        rw [if_pos ht2] at hok
+        simp only [Bool.and_eq_true, decide_eq_true_eq, Option.isNone_iff_eq_none] at hok
+        obtain ⟨⟨⟨⟨⟨hl4, hl48⟩, hmn⟩, hmx⟩, hofs⟩, hres⟩ := hok
+        obtain ⟨mn, hmn⟩ := Option.isSome_iff_exists.mp hmn
+        obtain ⟨mx, hmx⟩ := Option.isSome_iff_exists.mp hmx
+        have hop : ∃ post, post ≠ Post.date ∧ decOp f = .number l f.signed r mn mx (Lit.ofInt 0) post := by
+          rcases ht2 with h | h
+          · exact ⟨.time, by simp, by simp [decOp, h, numberOp, hl, hr, hmn, hmx]⟩
+          · exact ⟨.id, by simp, by simp [decOp, h, numberOp, hl, hr, hmn, hmx, hofs]⟩
+        obtain ⟨post, hpost, hop⟩ := hop
+        have hk : encKind f l = .time r l f.signed := by
+          rcases ht2 with h | h <;> simp [encKind, h, hr]
+        rw [hop] at hrun
+        rw [hk]
+        obtain ⟨r', hdec, hraw, hvid, hvtime, -⟩ := runOp_number hrun
+        have hrv : r.val ≠ 0 := by
+          by_cases hf : r.isFloat = true
+          · rw [if_pos hf] at hres
+            exact Lit.val_float_ne_zero r hf (by simpa using hres)
+          · rw [if_neg hf] at hres
+            simp only [Bool.and_eq_true, decide_eq_true_eq] at hres
+            exact Lit.val_int_ne_zero r (by simpa using hf) hres.1.1.1
+        cases r' with
+        | none =>
+          have hv : v = .none := by
+            cases post with
+            | id => rw [hvid rfl, hraw]
+            | time => rw [hvtime rfl]; rfl
+            | date => exact absurd rfl hpost
+          subst hv; subst hraw
+          rw [encValue_time_none]
+          refine ⟨_, rfl, ?_⟩
+          rw [naTime_eq l f.signed hl4]
+          exact na_rt data o l f.signed r mn mx _ (by omega) hdec
+        | some x =>
+          subst hraw
+          simp only
+          rw [encValue_time_num _ _ _ _ _ _ _ hrv]
+          refine ⟨_, rfl, ?_⟩
+          by_cases hf : r.isFloat = true
+          · rw [if_pos hf] at hres
+            exact ticks_rt_float data o l f.signed r mn mx x hf (by simpa using hres) hl48 hdec
+          · rw [if_neg hf] at hres
+            simp only [Bool.and_eq_true, decide_eq_true_eq] at hres
+            exact ticks_rt_int data o l f.signed r mn mx x (by simpa using hf) hres.1.1.1 hl48 hdec
+      · rw [if_neg ht2] at hok
+        have hn3 : f.ftype ≠ "TIME" := fun h => ht2 (Or.inl h)
+        have hn4 : f.ftype ≠ "DURATION" := fun h => ht2 (Or.inr h)
+        by_cases ht3 : f.ftype = "DATE"
+        · -- DATE
+          rw [if_pos ht3] at hok
+          simp only [Bool.and_eq_true, decide_eq_true_eq, Option.isNone_iff_eq_none, Bool.not_eq_true'] at hok
+          obtain ⟨⟨⟨⟨⟨⟨⟨⟨hl2, hl48⟩, hsg⟩, hrf⟩, hrm⟩, hre⟩, hmn⟩, hmx⟩, hofs⟩ := hok
+          obtain ⟨mn, hmn, -⟩ := isIntLit'_some hmn
+          obtain ⟨mx, hmx, -⟩ := isIntLit'_some hmx
+          have hop : decOp f = .number l f.signed r mn mx (Lit.ofInt 0) .date := by
+            simp [decOp, ht3, numberOp, hl, hr, hmn, hmx]
+          have hk : encKind f l = .date l := by simp [encKind, ht3]
+          rw [hop] at hrun
+          rw [hk]
+          obtain ⟨r', hdec, hraw, -, -, hvd⟩ := runOp_number hrun
+          have hvd' := hvd rfl
+          cases r' with
+          | none =>
+            subst hraw
+            have : v = .none := by
+              simp only [decodeDate, Except.ok.injEq] at hvd'
+              exact hvd'.symm
+            subst this
+            refine ⟨((2 ^ l : Nat) : Int) - 1, rfl, ?_⟩
+            rw [← naVal_unsigned, ← hsg]
+            exact na_rt data o l f.signed r mn mx _ hl2 hdec
+          | some x =>
+            subst hraw
+            obtain ⟨-, rfl⟩ := decodeNumber_some hdec
+            simp only [mulLit, hrf, Bool.false_eq_true, if_false, addLit, Lit.ofInt, numVal, hrm]
+            refine ⟨_, rfl, ?_⟩
+            rw [Int.mul_one, Int.add_zero]
+            exact ctr_fInt ..
+        · rw [if_neg ht3] at hok
+          by_cases ht4 : f.ftype = "LOOKUP"
+          · -- LOOKUP
+            rw [if_pos ht4] at hok
+            obtain ⟨e, he⟩ := Option.isSome_iff_exists.mp hok
+            have hop : decOp f = .lookup l e := by simp [decOp, ht4, he, withLen, hl]
+            have hk : encKind f l = .lookup e := by simp [encKind, ht4, he]
+            rw [hop] at hrun
+            rw [hk]
+            simp only [runOp, pure, Except.pure, throw, throwThe, MonadExceptOf.throw] at hrun
+            cases hm : assocGet e env.master with
+            | none => rw [hm] at hrun; cases hrun
+            | some tbl =>
+              rw [hm] at hrun
+              simp only [Except.ok.injEq, Prod.mk.injEq] at hrun
+              rw [← hrun.2.1]
+              exact ⟨_, rfl, ctr_nat _ _ (decode_int_lt ..)⟩
+          · -- RESERVED
+            rw [if_neg ht4] at hok
+            have ht5 : f.ftype = "RESERVED" := by simpa using hok
+            have hop : decOp f = .rawInt l := by simp [decOp, ht5, withLen, hl]
+            have hk : encKind f l = .reserved := by simp [encKind, ht5]
+            rw [hop] at hrun
+            rw [hk]
+            simp only [runOp, pure, Except.pure, Except.ok.injEq, Prod.mk.injEq] at hrun
+            rw [← hrun.1]
+            exact ⟨_, rfl, ctr_nat _ _ (decode_int_lt ..)⟩
+
+theorem fieldOk_not_indirect (f : FieldDef) (hok : fieldOk f = true) : f.ftype ≠ "INDIRECT_LOOKUP" := by
+  intro h
+  unfold fieldOk at hok
+  split at hok
+  · simp [h] at hok
+  · cases hok
+
+/-! ### message level -/
+
+/-- same as `leNat` of Props/C02.lean -/
+def leNat' : List Nat → Nat
+  | [] => 0
+  | b :: bs => b + 256 * leNat' bs
+
+theorem leNat_unique (F : List Nat → Nat) (h0 : F [] = 0) (h1 : ∀ b bs, F (b :: bs) = b + 256 * F bs) :
+    ∀ l, F l = leNat' l := by
+  intro l
+  induction l with
+  | nil => exact h0
+  | cons b bs ih => rw [h1, ih]; rfl
+
+theorem toLE_length : ∀ (k n : Nat), (toLE n k).length = k := by
+  intro k
+  induction k with
+  | zero => intro n; rfl
+  | succ k ih => intro n; simp [toLE, ih]
+
+theorem leNat'_toLE : ∀ (k n : Nat), leNat' (toLE n k) = n % 256 ^ k := by
+  intro k
+  induction k with
+  | zero => intro n; simp [toLE, leNat', Nat.mod_one]
+  | succ k ih =>
+    intro n
+    rw [toLE, leNat', ih, Nat.pow_succ, Nat.mul_comm (256 ^ k) 256, Nat.mod_mul]
+
+theorem lt_two_pow_bitLength (n : Nat) : n < 2 ^ bitLength n := by
+  unfold bitLength
+  split
+  · subst_vars; simp
+  · exact Nat.lt_log2_self
+
+theorem pow256 (k : Nat) : 256 ^ k = 2 ^ (8 * k) := by
+  rw [Nat.pow_mul]
+
+theorem bitLength_mask (l : Nat) : bitLength (2 ^ l - 1) = l := by
+  unfold bitLength
+  rcases Nat.eq_zero_or_pos l with h0 | hpos
+  · subst h0; simp
+  · have hP := two_pow_pred l hpos
+    have hH : 0 < 2 ^ (l - 1) := Nat.two_pow_pos _
+    have hne : 2 ^ l - 1 ≠ 0 := by omega
+    rw [if_neg hne]
+    have h1 : Nat.log2 (2 ^ l - 1) < l := (Nat.log2_lt hne).mpr (by omega)
+    have h2 : l - 1 ≤ Nat.log2 (2 ^ l - 1) := (Nat.le_log2 hne).mpr (by omega)
+    omega
+
+theorem masked_eq (z : Int) (l : Nat) :
+    ((z % ((2 ^ bitLength (2 ^ l - 1) : Nat) : Int)).toNat &&& (2 ^ l - 1)) = ctr z l := by
+  rw [bitLength_mask, Nat.and_two_pow_sub_one_eq_mod]
+  exact Nat.mod_eq_of_lt (ctr_lt z l)
+
+def part (data : Nat) (f : FieldDef) : Nat × Nat × Nat :=
+  (Straight.decode_int data (f.bitOffset.getD 0) (f.bitLength.getD 0), f.bitLength.getD 0, f.bitOffset.getD 0)
+
+/-- the step of field `f` evaluates, on the decoded message, to the field's bits in `data` -/
+def Good (env : Env) (flds : List Field) (data : Nat) (f : FieldDef) : Prop :=
+  ∃ l o, f.bitLength = some l ∧ f.bitOffset = some o ∧ ∃ fld z, getField flds (fieldId f) = some fld ∧
+    encValue env fld (encKind f l) = .ok z ∧ ctr z l = Straight.decode_int data o l
+
+theorem runSteps_good (env : Env) (flds : List Field) (data : Nat) (p : PgnDef) :
+    ∀ (fs : List FieldDef) (a : Nat), (∀ f ∈ fs, Good env flds data f) →
+      runSteps env flds a (fs.map (encStep p)) = .ok (a ||| acc (fs.map (part data))) := by
+  intro fs
+  induction fs with
+  | nil => intro a _; simp [runSteps, acc, pure, Except.pure]
+  | cons f rest ih =>
+    intro a hg
+    obtain ⟨l, o, hl, ho, fld, z, hget, hz, hc⟩ := hg f (List.mem_cons_self ..)
+    have hstep : encStep p f = .field (fieldId f) f.name (encKind f l) (2 ^ l - 1) o := by
+      simp [encStep, hl, ho]
+    rw [List.map_cons, hstep, runSteps, hget]
+    simp only [bind, Except.bind, hz]
+    rw [masked_eq, hc, ih _ (fun g hg' => hg g (List.mem_cons_of_mem _ hg'))]
+    have e : acc (List.map (part data) (f :: rest)) =
+        acc (rest.map (part data)) ||| (Straight.decode_int data o l <<< o) := by
+      simp only [List.map_cons, part, hl, ho, Option.getD_some, acc]
+    rw [e, Nat.or_assoc, Nat.or_comm (_ <<< o)]
+
+/-- same as `rangesDisjoint` of Props/C02.lean -/
+def rangesDisj : List FieldDef → Bool
+  | [] => true
+  | f :: rest =>
+    rest.all (fun g =>
+      match f.bitOffset, f.bitLength, g.bitOffset, g.bitLength with
+      | some o, some l, some o', some l' => decide (o + l ≤ o' ∨ o' + l' ≤ o)
+      | _, _, _, _ => false) && rangesDisj rest
+
+/-- same as `idsUnique` of Props/C02.lean -/
+def idsUniq : List FieldDef → Bool
+  | [] => true
+  | f :: rest => rest.all (fun g => fieldId g ≠ fieldId f) && idsUniq rest
+
+theorem rangesDisj_unique (R : List FieldDef → Bool) (h0 : R [] = true)
+    (h1 : ∀ f rest, R (f :: rest) = (rest.all (fun g =>
+      match f.bitOffset, f.bitLength, g.bitOffset, g.bitLength with
+      | some o, some l, some o', some l' => decide (o + l ≤ o' ∨ o' + l' ≤ o)
+      | _, _, _, _ => false) && R rest)) : ∀ l, R l = rangesDisj l := by
+  intro l
+  induction l with
+  | nil => exact h0
+  | cons f rest ih => rw [h1, ih]; rfl
+
+theorem idsUniq_unique (R : List FieldDef → Bool) (h0 : R [] = true)
+    (h1 : ∀ f rest, R (f :: rest) = (rest.all (fun g => fieldId g ≠ fieldId f) && R rest)) :
+    ∀ l, R l = idsUniq l := by
+  intro l
+  induction l with
+  | nil => exact h0
+  | cons f rest ih => rw [h1, ih]; rfl
+
+theorem disj_parts (data : Nat) : ∀ fs : List FieldDef, rangesDisj fs = true → disj (fs.map (part data)) := by
+  intro fs
+  induction fs with
+  | nil => intro _; trivial
+  | cons f rest ih =>
+    intro h
+    rw [rangesDisj, Bool.and_eq_true, List.all_eq_true] at h
+    refine ⟨?_, ih h.2⟩
+    intro x hx
+    obtain ⟨g, hg, rfl⟩ := List.mem_map.mp hx
+    have := h.1 g hg
+    split at this
+    · rename_i o l o' l' e1 e2 e3 e4
+      simp only [part, e1, e2, e3, e4, Option.getD_some]
+      simpa using this
+    · cases this
+
+theorem nodup_ids : ∀ fs : List FieldDef, idsUniq fs = true → (fs.map fieldId).Nodup := by
+  intro fs
+  induction fs with
+  | nil => intro _; exact List.nodup_nil
+  | cons f rest ih =>
+    intro h
+    rw [idsUniq, Bool.and_eq_true, List.all_eq_true] at h
+    rw [List.map_cons, List.nodup_cons]
+    refine ⟨?_, ih h.2⟩
+    intro hm
+    obtain ⟨g, hg, e⟩ := List.mem_map.mp hm
+    have := h.1 g hg
+    simp only [ne_eq, decide_not, Bool.not_eq_eq_eq_not, Bool.not_true, decide_eq_false_iff_not] at this
+    exact this e
+
+theorem getField_of_nodup : ∀ (flds : List Field) (i : Nat) (x : Field),
+    (flds.map (·.fmeta.id)).Nodup → flds[i]? = some x → getField flds x.fmeta.id = some x := by
+  intro flds
+  induction flds with
+  | nil => intro i x _ h; simp at h
+  | cons a l ih =>
+    intro i x hn h
+    rw [List.map_cons, List.nodup_cons] at hn
+    unfold getField
+    rw [List.find?_cons]
+    cases i with
+    | zero =>
+      simp only [List.getElem?_cons_zero, Option.some.injEq] at h
+      subst h; simp
+    | succ i =>
+      simp only [List.getElem?_cons_succ] at h
+      have hx : x ∈ l := List.mem_of_getElem? h
+      have hne : a.fmeta.id ≠ x.fmeta.id := by
+        intro e
+        exact hn.1 (e ▸ List.mem_map.mpr ⟨x, hx, rfl⟩)
+      simp only [hne, decide_false]
+      exact ih i x hn.2 h
+
+theorem acc_lt (N : Nat) : ∀ parts : List (Nat × Nat × Nat),
+    (∀ x ∈ parts, x.1 < 2 ^ x.2.1 ∧ x.2.2 + x.2.1 ≤ N) → acc parts < 2 ^ N := by
+  intro parts
+  induction parts with
+  | nil => intro _; exact Nat.two_pow_pos N
+  | cons y rest ih =>
+    obtain ⟨v, l, o⟩ := y
+    intro h
+    rw [acc]
+    apply Nat.or_lt_two_pow (ih (fun x hx => h x (List.mem_cons_of_mem _ hx)))
+    obtain ⟨h1, h2⟩ := h _ (List.mem_cons_self ..)
+    simp only at h1 h2
+    rw [Nat.shiftLeft_eq]
+    calc v * 2 ^ o < 2 ^ l * 2 ^ o := Nat.mul_lt_mul_of_pos_right h1 (Nat.two_pow_pos o)
+      _ = 2 ^ (l + o) := (Nat.pow_add 2 l o).symm
+      _ ≤ 2 ^ N := Nat.pow_le_pow_right (by norm_num) (by omega)
+
+theorem fieldOk_layout (f : FieldDef) (h : fieldOk f = true) : ∃ l o, f.bitLength = some l ∧ f.bitOffset = some o := by
+  unfold fieldOk at h
+  split at h
+  · rename_i l o r e1 e2 e3; exact ⟨l, o, e1, e2⟩
+  · cases h
+
+theorem good_fields (env : Env) (g : List PgnDef) (p : PgnDef) (data : Nat) (m : Msg)
+    (hok : p.fields.all fieldOk = true) (hiu : idsUniq p.fields = true)
+    (hord : (p.fields.mapIdx (fun i f => f.order == i + 1)).all id = true)
+    (hdec : runDec env (compileDec g p) data = .ok m) :
+    ∀ f ∈ p.fields, Good env m.fields data f := by
+  intro f hf
+  rw [List.all_eq_true] at hok
+  have hfok := hok f hf
+  obtain ⟨l, o, hl, ho⟩ := fieldOk_layout f hfok
+  obtain ⟨i, hi⟩ := List.mem_iff_getElem?.mp hf
+  have hord' := Dec01.orders_of_all p.fields hord
+  obtain ⟨fld, v, off', done, hfld, -, hrun, hval⟩ := Dec01.compiled_field hdec hord' hi ho
+  have hv := hval (fieldOk_not_indirect f hfok)
+  -- metadata
+  obtain ⟨flds, hstm, hm⟩ := Dec01.runDec_ok hdec
+  have hmeta := Dec01.runStmts_meta env data _ 0 [] flds hstm
+  rw [Dec01.decStmts_map_fmeta, List.map_nil, List.nil_append] at hmeta
+  have hmf : m.fields = flds := by rw [hm]
+  rw [hmf] at hfld ⊢
+  have hids : flds.map (·.fmeta.id) = p.fields.map fieldId := by
+    have := congrArg (List.map (·.id)) hmeta
+    simpa [List.map_map, Function.comp_def, fieldMeta] using this
+  have hid : fld.fmeta.id = fieldId f := by
+    have := congrArg (fun l => l[i]?) hids
+    simp only [List.getElem?_map, hfld, hi, Option.map_some, Option.some.injEq] at this
+    exact this
+  have hget : getField flds (fieldId f) = some fld := by
+    rw [← hid]
+    exact getField_of_nodup flds i fld (hids ▸ nodup_ids _ hiu) hfld
+  obtain ⟨fm, val, raw⟩ := fld
+  simp only at hv hrun
+  subst hv
+  obtain ⟨z, hz, hc⟩ := field_contrib env data f l o hfok hl ho fm val raw off' done hrun
+  exact ⟨l, o, hl, ho, _, z, hget, hz, hc⟩
+
+theorem roundtrip (env : Env) (g : List PgnDef) (p : PgnDef)
+    (hok : p.fields.all fieldOk = true) (hrd : rangesDisj p.fields = true) (hiu : idsUniq p.fields = true)
+    (hord : (p.fields.mapIdx (fun i f => f.order == i + 1)).all id = true)
+    (hlen : (match p.length with
+      | some L => p.fields.all (fun f => match f.bitOffset, f.bitLength with
+          | some o, some l => decide (o + l ≤ 8 * L) | _, _ => false)
+      | none => true) = true)
+    (data : Nat) (m : Msg) (hdec : runDec env (compileDec g p) data = .ok m) :
+    ∃ bytes, runEnc env (compileEnc g p) m.fields = .ok bytes ∧
+      (∀ L, p.length = some L → bytes.length = L) ∧
+      (∀ f ∈ p.fields, ∀ o l, f.bitOffset = some o → f.bitLength = some l →
+        Straight.decode_int (leNat' bytes) o l = Straight.decode_int data o l) := by
+  have hgood := good_fields env g p data m hok hiu hord hdec
+  have hsteps := runSteps_good env m.fields data p p.fields 0 hgood
+  rw [Nat.zero_or] at hsteps
+  have hv : ∀ x ∈ p.fields.map (part data), x.1 < 2 ^ x.2.1 := by
+    intro x hx
+    obtain ⟨f, -, rfl⟩ := List.mem_map.mp hx
+    exact decode_int_lt ..
+  have hread : ∀ f ∈ p.fields, ∀ o l, f.bitOffset = some o → f.bitLength = some l →
+      Straight.decode_int (acc (p.fields.map (part data))) o l = Straight.decode_int data o l := by
+    intro f hf o l ho hl
+    have := acc_read _ (disj_parts data p.fields hrd) hv (part data f) (List.mem_map.mpr ⟨f, hf, rfl⟩)
+    simpa only [part, ho, hl, Option.getD_some] using this
+  unfold runEnc
+  simp only [compileEnc, bind, Except.bind, hsteps]
+  cases hL : p.length with
+  | some L =>
+    rw [hL] at hlen
+    simp only [List.all_eq_true] at hlen
+    have hlt : acc (p.fields.map (part data)) < 256 ^ L := by
+      rw [pow256]
+      apply acc_lt
+      intro x hx
+      obtain ⟨f, hf, rfl⟩ := List.mem_map.mp hx
+      refine ⟨decode_int_lt .., ?_⟩
+      have := hlen f hf
+      split at this
+      · rename_i o l e1 e2
+        simp only [part, e1, e2, Option.getD_some]
+        have := of_decide_eq_true this
+        omega
+      · cases this
+    simp only [if_pos hlt, pure, Except.pure]
+    refine ⟨_, rfl, fun L' h => ?_, ?_⟩
+    · cases h; exact toLE_length ..
+    · rw [leNat'_toLE, Nat.mod_eq_of_lt hlt]; exact hread
+  | none =>
+    simp only [pure, Except.pure]
+    refine ⟨_, rfl, fun L' h => (by cases h), ?_⟩
+    rw [leNat'_toLE, Nat.mod_eq_of_lt]
+    · exact hread
+    · rw [pow256]
+      refine lt_of_lt_of_le (lt_two_pow_bitLength _) (Nat.pow_le_pow_right (by norm_num) (by omega))
+
+end N2k.Enc02
